@@ -64,19 +64,48 @@ def wrapped(F, b, s):
         return False, "creation site of the async block not found", None
     P, cs, st = cc
     lc = st["pl"]["l"]
+    ok, why, site = _guarded_in(F, P, lambda pl: A.canon_place(P, pl)["l"] == lc and not A.canon_place(P, pl)["p"], lc)
+    if ok:
+        return ok, why, site
+    # ... or the block is handed (and only handed) to a private unwind-guard helper — `catch_panic(async { user().await }).await` —
+    # whose own body puts exactly that parameter under AssertUnwindSafe(..).catch_unwind() and awaits it
+    uses, aliases = A.forward_uses(P, lc)
+    if len(uses) == 1:
+        us, ut, ui = uses[0]
+        G = F.callee_body(ut, P.crate)
+        if G is not None and ui is not None:
+            gb = roles.coroutine_of(F, G) if any(c.is_coroutine for c in F.children.get(G.key, [])) else G
+            pidx = ui + 1
+
+            def is_param(pl, gb=gb, G=G, pidx=pidx):
+                db, cp = A.canon_place_deep(F, gb, pl)
+                return db is G and cp["l"] == pidx and not [e for e in cp["p"] if e != "*"]
+            ok2, why2, site2 = _guarded_in(F, gb, is_param, None)
+            awaited = any(aw.src_op is not None and us in A.slice_back(P, [aw.src_op]).sites for aw in A.awaits(P)) or not gb.is_coroutine
+            if ok2 and awaited:
+                return True, f"{G.short.rsplit('::', 1)[-1]}(async {{ user().await }}).await, where the helper guards its argument with catch_unwind", us
+            if ok2 and not awaited:
+                return False, f"the future returned by {G.short.rsplit('::', 1)[-1]} is not awaited", None
+    return ok, why, site
+
+
+def _guarded_in(F, P, is_block, lc):
+    """In body P: the value selected by `is_block(place)` flows into exactly one AssertUnwindSafe(..), that into catch_unwind, and the
+    resulting future is awaited in P; (if `lc` is given) the block value has no other use."""
     aus = []
     for site, st2 in P.assigns(lambda st2: st2["rv"]["k"] == "agg" and st2["rv"].get("adt") == "std::panic::AssertUnwindSafe"):
         op = st2["rv"]["ops"][0]
         pl = op_place(op)
-        if pl is not None and A.canon_place(P, pl)["l"] == lc and not A.canon_place(P, pl)["p"]:
+        if pl is not None and is_block(pl):
             aus.append((site, st2))
     if len(aus) != 1:
         return False, f"the async block flows into {len(aus)} AssertUnwindSafe wrappers", None
     la = aus[0][1]["pl"]["l"]
     # other uses of the block value
-    uses, aliases = A.forward_uses(P, lc)
-    if uses:
-        return False, f"the async block is also passed to {[callee_path(t) for _, t, _ in uses]}", None
+    if lc is not None:
+        uses, aliases = A.forward_uses(P, lc)
+        if uses:
+            return False, f"the async block is also passed to {[callee_path(t) for _, t, _ in uses]}", None
     cus = []
     for site, t in P.calls(lambda t: callee_is(t, r"FutureExt::catch_unwind$")):
         pl = op_place(t["args"][0])
@@ -124,11 +153,13 @@ def r2(F, R):
             tree.add(nb.key)
             for s, t in nb.calls():
                 cb = F.callee_body(t)
-                if cb is not None and cb.name.startswith("runner::basic::Executor") and cb.key not in tree:
-                    work.append(cb)
+                if cb is not None and (cb.name.startswith("runner::basic::") or cb.name.startswith("<runner::basic::")) and not (cb.impl or {}).get("trait") and cb.key not in tree:
+                    work.append(cb)     # Executor methods and the module's private helpers (`catch_panic(fut)`)
     bodies = [F.bodies[k] for k in tree]
     cus = [(b, s, t) for b in bodies for s, t in b.calls(lambda t: callee_is(t, r"FutureExt::catch_unwind$"))]
-    R.check(len(cus) >= 5, "catch-sites", None, f"{len(cus)} catch_unwind sites", f"only {len(cus)} catch_unwind sites in the attempt routine")
+    # (that every user callback sits under one of them is R1's wrap rule; how many textual sites there are is a matter of style —
+    # five inline guards, or one `catch_panic` helper)
+    R.check(len(cus) >= 1, "catch-sites", None, f"{len(cus)} catch_unwind site(s)", "no catch_unwind site in the attempt routine")
     # sinks: StepError::Panic aggregates, ExecutionFailure::BeforeHookPanicked.panic_info, after-hook Err tuple
     sinks = []
     for b in bodies:
@@ -139,23 +170,51 @@ def r2(F, R):
             if rv["adt"] == "runner::basic::ExecutionFailure" and rv["variant"] == "BeforeHookPanicked":
                 f = dict(zip(rv["fields"], rv["ops"]))
                 sinks.append((b, s, f["panic_info"], "BeforeHookPanicked.panic_info"))
+    def contains_catch(kb, depth=0):
+        """catch_unwind is called in kb, its nested bodies, or (two levels of) the module's private helpers they call."""
+        if kb is None:
+            return False
+        for nb in F.nested(kb):
+            for _, t2 in nb.calls():
+                if callee_is(t2, r"FutureExt::catch_unwind$"):
+                    return True
+                sub = F.callee_body(t2, nb.crate)
+                if sub is not None and depth < 2 and sub.key in tree and sub is not kb and contains_catch(sub, depth + 1):
+                    return True
+        return False
+
+    def payload_slices(b, op):
+        """deep slices of the operand; if it is a parameter of a local closure (`let failed = |info| ..; failed(x)`), also of the
+        arguments the closure is called with in its creating body."""
+        out = [(b, A.deep_slice(F, b, [op]))]
+        l = op_local(op)
+        if b.kind == "Closure" and l is not None and 2 <= A.canon_place(b, {"l": l, "p": []})["l"] <= b.arg_count and not A.canon_place(b, {"l": l, "p": []})["p"]:
+            pidx = A.canon_place(b, {"l": l, "p": []})["l"] - 2
+            cc = A.closure_creation(F, b)
+            if cc is not None:
+                P, cs, st = cc
+                uses, aliases = A.forward_uses(P, st["pl"]["l"])
+                for us, ut, ui in uses:
+                    if callee_is(ut, r"ops::Fn(Once|Mut)?::call(_once|_mut)?$") and ui == 0 and len(ut["args"]) > 1:
+                        tl = op_local(ut["args"][1])
+                        tsd = P.single_def(tl) if tl is not None else None
+                        if tsd and tsd[1] == "assign" and tsd[2]["rv"]["k"] == "agg" and tsd[2]["rv"].get("agg") == "tuple" and pidx < len(tsd[2]["rv"]["ops"]):
+                            out.append((P, A.deep_slice(F, P, [tsd[2]["rv"]["ops"][pidx]])))
+        return out
+
     for b, s, op, name in sinks:
-        ds = A.deep_slice(F, b, [op])
-        from_catch = any(callee_is(t, r"FutureExt::catch_unwind$") for _, t in ds.calls) or \
-            any(callee_is(t, r"Future::poll$") and "CatchUnwind" in (op_fn(t["func"]) or {}).get("full", "") for _, t in ds.calls)
-        from_fmt = ds.has_call(r"fmt::format$", r"format$", r"coerce_into_info$") and any(A.const_str(c) is None for c in ds.consts)
-        if not from_catch:
+        from_catch = from_fmt = False
+        for sb, ds in payload_slices(b, op):
+            from_catch = from_catch or any(callee_is(t, r"FutureExt::catch_unwind$") for _, t in ds.calls) or \
+                any(callee_is(t, r"Future::poll$") and "CatchUnwind" in (op_fn(t["func"]) or {}).get("full", "") for _, t in ds.calls)
+            from_fmt = from_fmt or (ds.has_call(r"fmt::format$", r"format$", r"coerce_into_info$") and any(A.const_str(c) is None for c in ds.consts))
             # the payload arrives as the result of an awaited crate-local future that itself contains the catch_unwind
             for _, rv in ds.aggs:
-                if rv.get("agg") in ("coroutine", "closure", "coroutine_closure"):
-                    kb = F.body(rv["def"])
-                    if kb is not None and any(callee_is(t, r"FutureExt::catch_unwind$") for nb in F.nested(kb) for _, t in nb.calls()):
-                        from_catch = True
-        if not from_catch:
-            # ... or of an awaited crate-local `async fn` helper (`Self::init_step_world().await`) that contains it
+                if rv.get("agg") in ("coroutine", "closure", "coroutine_closure") and contains_catch(F.body(rv["def"])):
+                    from_catch = True
+            # ... or of an awaited crate-local `async fn` helper (`Self::init_step_world().await`, `catch_panic(fut).await`) that contains it
             for cs, ct in ds.calls:
-                cb = F.callee_body(ct, b.crate)
-                if cb is not None and any(callee_is(t2, r"FutureExt::catch_unwind$") for nb in F.nested(cb) for _, t2 in nb.calls()):
+                if contains_catch(F.callee_body(ct, sb.crate)):
                     from_catch = True
         inst = f"payload/{name}@{F.root_fn(b).short.rsplit('::', 1)[-1]}/{s.loc.rsplit(':', 1)[-1] if False else ''}"
         # the caught `Box<dyn Any + Send>` must be converted (Info::from / into), never wrapped as a value of its own
